@@ -92,6 +92,17 @@ def observe_argsort(case):
         out['err'] = exn_name(e)
     out['decisions'] = decisions(sorter)
     out['input_untouched'] = len(inp) == len(tids) and all(a is b for a, b in zip(inp, tids))
+    # further calls on the SAME sorter instance: same id set with other multiplicities, other sequences
+    out['followups'] = []
+    for seq in case.get('followups', []):
+        PROXY.log = []
+        rec = {}
+        try:
+            rec['ok'] = [int(i) for i in sorter.argsort([TermId.from_curie(x) for x in seq])]
+        except Exception as e:
+            rec['err'] = exn_name(e)
+        rec['decisions'] = decisions(sorter)
+        out['followups'].append(rec)
     if 'ok' in out:
         # same answer for identified objects with those ids, for a tuple input, and when called again
         PROXY.log = []
